@@ -98,29 +98,23 @@ Ltac refute_eq :=
   intros [[H _] _]; simpl in H; try discriminate;
   try (destruct H as [_ [H _]]; simpl in H; discriminate).
 
-Lemma bad_merge_leaves_signature : rejected_with_effect init w_bad_merge.
-Proof.
-  eexists; eexists; split; [vm_compute; reflexivity|].
-  intros [[_ [H _]] _]. simpl in H. discriminate.
-Qed.
+(** since commit 473a35e a single function declaration is atomic: these three are now CLEAN *)
+Lemma bad_merge_clean : step init w_bad_merge = (init, RReject EBadMerge).
+Proof. vm_compute. reflexivity. Qed.
+Lemma self_merge_clean : step init w_self_merge = (init, RReject EBadMerge).
+Proof. vm_compute. reflexivity. Qed.
+Lemma ctor_non_eq_clean : step init w_ctor_non_eq = (init, RReject ECtorOutputNotSort).
+Proof. vm_compute. reflexivity. Qed.
+Lemma dup_other_sig_clean :
+  let s := fst (step init (CFunction f [i64] i64 (Some good_merge))) in
+  step s w_dup_other_sig = (s, RReject EDupFunction).
+Proof. vm_compute. reflexivity. Qed.
 
+(** the remaining witnesses *)
 Lemma bad_variant_leaves_sort_and_constructor : rejected_with_effect init w_bad_variant.
 Proof.
   eexists; eexists; split; [vm_compute; reflexivity|].
   intros [[H _] _]. simpl in H. discriminate.
-Qed.
-
-Lemma ctor_non_eq_leaves_signature : rejected_with_effect init w_ctor_non_eq.
-Proof.
-  eexists; eexists; split; [vm_compute; reflexivity|].
-  intros [[_ [H _]] _]. simpl in H. discriminate.
-Qed.
-
-Lemma dup_overwrites_signature :
-  rejected_with_effect (fst (step init (CFunction f [i64] i64 (Some good_merge)))) w_dup_other_sig.
-Proof.
-  eexists; eexists; split; [vm_compute; reflexivity|].
-  intros [[_ [H _]] _]. simpl in H. discriminate.
 Qed.
 
 Lemma shadowing_after_typecheck_leaves_signature :
@@ -130,18 +124,23 @@ Proof.
   intros [[_ [H _]] _]. simpl in H. discriminate.
 Qed.
 
-(** the two F2 replays and the F9 replay, inside the model: the result list ends in a panic *)
-Lemma f2_replay_function :
-  snd (run init [w_bad_merge; CFunction f [i64] i64 (Some good_merge); CAct (ASet f [EInt] EInt)])
-  = [RReject EBadMerge; RReject EDupFunction; RPanic].
-Proof. vm_compute. reflexivity. Qed.
+(** (let $g 1) then (let $g "s"): rejected by check_shadowing, but the global's sort changed *)
+Lemma second_let_changes_global_sort :
+  rejected_with_effect (fst (step init (CAct (ALet (G 16) EInt)))) (CAct (ALet (G 16) EStr)).
+Proof.
+  eexists; eexists; split; [vm_compute; reflexivity|].
+  intros [[_ [_ [H _]]] _]. simpl in H. discriminate.
+Qed.
 
+(** the F2 replays inside the model: the result list ends in a panic *)
 Lemma f2_replay_datatype :
   snd (run init [w_bad_variant; CAct (ADo (ECall va [EInt]))])
   = [RReject (ELaterPart EUndefinedSort); RPanic].
 Proof. vm_compute. reflexivity. Qed.
 
-Lemma f9_replay : snd (step init w_self_merge) = RPanic.
+Lemma f2_replay_shadowing :
+  snd (run init [CRuleset r; w_shadow; CAct (ASet r [EInt] EInt)])
+  = [RAccept; RReject EShadowing; RPanic].
 Proof. vm_compute. reflexivity. Qed.
 
 (* ---------------------------------------------------------------------------------------- *)
@@ -206,6 +205,7 @@ Qed.
 Definition early (e : err) : bool :=
   match e with
   | EUndefinedSort | ESortAlreadyBound | EFunctionBoundAtSort | EPresortNotFound | EBadPresortArgs
+  | EDupFunction | ECtorOutputNotSort | EBadMerge
   | EUnbound | EUnboundFunction | EArity | EMismatch | ENeedsType => true
   | _ => false
   end.
@@ -229,17 +229,21 @@ Proof.
   - destruct (has (sorts F) n); inv H; auto.
 Qed.
 
+Lemma tc_function_reject : forall F n ins out ctor m F' e,
+  tc_function F n ins out ctor m = (F', Some e) -> F' = F /\ early e = true.
+Proof.
+  unfold tc_function; intros F n ins out ctor m F' e H.
+  destruct (has (sorts F) n); [inv H; auto|].
+  destruct (negb _); [inv H; auto|].
+  destruct (has (funcs F) n); [inv H; auto|].
+  destruct (ctor && _); [inv H; auto|].
+  destruct m as [m|]; [|inv H].
+  destruct (tc _ _ _ _ _); inv H; auto.
+Qed.
+
 Lemma tc_function_early : forall F n ins out ctor m F' e,
   tc_function F n ins out ctor m = (F', Some e) -> early e = true -> F' = F.
-Proof.
-  unfold tc_function; intros F n ins out ctor m F' e H He.
-  destruct (has (sorts F) n); [inv H; reflexivity|].
-  destruct (negb _); [inv H; reflexivity|].
-  destruct (has (funcs F) n); [inv H; discriminate|].
-  destruct (ctor && _); [inv H; discriminate|].
-  destruct m as [m|]; [|inv H].
-  destruct (tc _ _ _ _ _); inv H; discriminate.
-Qed.
+Proof. intros. apply tc_function_reject in H. tauto. Qed.
 
 Theorem reject_no_effect_early : forall s c s' e,
   single_decl c = true -> step s c = (s', RReject e) -> early e = true -> s' = s.
@@ -332,7 +336,7 @@ Proof.
   assert (K : mem n (seen F1) = false /\ has (tables F1) n = false /\
               s' = (declare_table (with_seen F1 (n :: seen F1)) n false, st)).
   { apply Hm. destruct m as [m|]; simpl.
-    - destruct (tc F1 false m None _); simpl in H; [inv H|]. exact H.
+    - destruct (tc F false m None _); simpl in H; [inv H|]. exact H.
     - exact H. }
   destruct K as [K1 [K2 K3]]. subst s'. simpl in K1, K2.
   apply andb_true_iff in E2. destruct E2 as [E2a E2b].
@@ -550,8 +554,8 @@ Qed.
 Lemma closed_init : fn_closed init_frame.
 Proof. split; intros n H; discriminate. Qed.
 
-Lemma f2_breaks_closed : exists s' e, step init w_bad_merge = (s', RReject e) /\ ~ fn_closed (fst s').
+Lemma f2_breaks_closed : exists s' e, step init w_bad_variant = (s', RReject e) /\ ~ fn_closed (fst s').
 Proof.
   eexists; eexists; split; [vm_compute; reflexivity|].
-  intros [Hf _]. specialize (Hf f). simpl in Hf. discriminate Hf. reflexivity.
+  intros [Hf _]. specialize (Hf va). simpl in Hf. discriminate Hf. reflexivity.
 Qed.
